@@ -416,7 +416,36 @@ def descr_castchain(row, rhs, ops, Wres):
         want = ('slice', ops[0], fb, ext, Wres, False)
     v = iabs(rhs)
     if v[0] != 'slice':
-        raise AnalysisBroken('%s: not a cast chain: %r (%s)' % (row['name'], rhs, v[1] if len(v) > 1 else ''))
+        # not a single truncate-and-extend, but possibly still a pure chain of integer casts of the operand.  Such a chain maps
+        # every result bit to one operand bit or to 0, so its value on 0 and on every single-bit operand decides all operands.
+        chain = []
+        e = rhs
+        while e.k == 'cast' and tinfo(e.ty)[0] == 'int':
+            chain.append(tinfo(e.ty))
+            e = e.a[0]
+        if e.k != 'var' or e.x != ops[0] or tinfo(e.ty)[0] != 'int':
+            raise AnalysisBroken('%s: not a cast chain: %r (%s)' % (row['name'], rhs, v[1] if len(v) > 1 else ''))
+        Win = tinfo(e.ty)[1]
+
+        def run(x):
+            bits, signed = Win, tinfo(e.ty)[2]
+            for _k, b_, s_ in reversed(chain):
+                x &= (1 << b_) - 1          # value as a two's complement pattern of the new width
+                if bits < b_ and signed and x >> (bits - 1) & 1:
+                    x |= ((1 << b_) - 1) & ~((1 << bits) - 1)
+                bits, signed = b_, s_
+            return x & ((1 << Wres) - 1)
+
+        def spec(x):
+            _, _slot, k, ext, W_, _S = want
+            x &= (1 << k) - 1
+            if ext == 's' and x >> (k - 1) & 1:
+                x |= ((1 << W_) - 1) & ~((1 << k) - 1)
+            return x & ((1 << W_) - 1)
+        for x in [0] + [1 << i for i in range(Win)]:
+            if run(x) != spec(x):
+                return ['for operand 0x%X the cast chain %r yields 0x%X, specification requires 0x%X' % (x, rhs, run(x), spec(x))]
+        return []
     # canonical form: zero-extension of k == W bits equals the plain value
     def canon(s):
         _, slot, k, ext, W, S = s
